@@ -35,9 +35,9 @@ CHECKS = {
         technique="deterministic simulation: seeded error injection through the client/script/package seam, model-derived oracle",
         ref="DESIGN.md §6 C06"),
     "C09": dict(
-        text="Seeded search over ack policies per message key (now / never / later:n / twice), the ticks at which the client answers interrupts, max_message_retry_times 1..5, tick_interval_secs {1,15}, stalled ticks, redo/clear operations, engine restarts at quiescent points, both store backends (in-memory with collection transplant, SQLite file) and schedules, on the discrete-event clock. RefMsgStore per message id over the recorded history (store-call log from proxy collections, deliveries with simulator sequence numbers, ack/action/redo instants, message rows at every quiescent point): stored before the handler, same id/content, retry counts consecutive up to the maximum, then error and silence until redo, no redelivery from a tick that started after ack/close, statuses never move back, un-acked open messages are redelivered. Sampling: evidence, not proof.",
+        text="Two parts. (a) Seeded search over ack policies per message key (now / never / later:n / twice), the ticks at which the client answers interrupts, max_message_retry_times 1..5, tick_interval_secs {1,15}, stalled ticks, redo/clear operations, engine restarts at quiescent points, both store backends (in-memory with collection transplant, SQLite file) and schedules, on the discrete-event clock. RefMsgStore per message id over the recorded history (store-call log from proxy collections, deliveries with simulator sequence numbers, ack/action/redo instants, message rows at every quiescent point): stored before the handler, same id/content, retry counts consecutive up to the maximum, then error and silence until redo, no redelivery from a tick that started after ack/close, statuses never move back, un-acked open messages are redelivered. (b) Threads, layer 2: a client thread acknowledges 1..all of the 2..5 stale messages while the executor runs as one more virtual thread on which the due tick redelivers them (query, then per message update + emit); the baton moves at intercepted engine lock acquisitions, so an acknowledgement lands between the tick's read and its write of the same record; afterwards 3..6 ticks on layer 1: an acknowledged message is never delivered by a tick that started after the acknowledgement returned and its stored status stays `acked`. Sampling: evidence, not proof.",
         note="Trusted: proxy collections registered through the public Extender (call order), timer/clock shims. A redelivery emitted before the ack returned is in flight and accepted. Below 300 stored messages.",
-        technique="deterministic simulation: discrete-event ticks, lossy/late/duplicate acknowledgements, restart faults, history check against a per-message reference model",
+        technique="deterministic simulation: discrete-event ticks, lossy/late/duplicate acknowledgements, restart faults, history check against a per-message reference model (layer 1) + seeded preemptive schedules of an acknowledging client thread against the redelivering tick at lock points (layer 2)",
         ref="DESIGN.md §6 C09"),
     "C10": dict(
         text="Seeded operation histories (create with adversarial field values, find/exists of present and absent ids, update of every field, delete, a second create of an existing id, update/delete of absent or already deleted ids, queries with AND/OR groups incl. sub-conditions that match nothing and NULL tests, numeric/text order keys, offset/limit windows) on each of the six collections and both backends, with close+reopen of the SQLite file between operations as the applicable fault; every answer (records field by field, row set, order, count/page_count/page_num/page_size) is compared with RefCollection, hence the backends with each other. The statement has no scheduling dimension and none is pretended. Sampling: evidence, not proof.",
